@@ -142,14 +142,18 @@ impl<'a> Gen<'a> {
         let cat = format!("blob_{}", cat);
         let hx = hex::encode(x);
         self.hexform(&cat, hx.as_bytes());
-        let mut c = vec![x.len() as u8]; c.extend_from_slice(x);
-        if x.len() < 128 { self.cons(&cat, &c); }
+        // the consensus form of the blob: a varint length (two bytes from 128 on) and the bytes — for EVERY length, so that the
+        // consensus parser is really asked about the long blobs too
+        let mut c: Vec<u8> = if x.len() < 128 { vec![x.len() as u8] } else { vec![(x.len() & 0x7f) as u8 | 0x80, (x.len() >> 7) as u8] };   // lengths < 16384
+        c.extend_from_slice(x);
+        self.o.direct(c == serialize(&x.to_vec()), "hand-written consensus form of a byte string (varint length, bytes) == serialize(Vec<u8>)", hex(x), hex(&serialize(&x.to_vec())), hex(&c));
+        self.cons(&cat, &c);
         let txt = base58_monero::encode(x).unwrap();
         if with_text { self.text(&cat, &txt, true); }
         let rb = Address::from_bytes(x).ok();
         let rh = Address::from_hex(&hx).ok();
         let rs = Address::from_str(&txt).ok();
-        let rc = if x.len() < 128 { monero::consensus::encode::deserialize::<Address>(&c).ok() } else { rb };
+        let rc = monero::consensus::encode::deserialize::<Address>(&c).ok();
         self.o.direct(rb == rh && rb == rs && rb == rc, "from_bytes / from_hex / from_str / consensus deserialize agree on one blob (same acceptance, same address)", hex(x),
             format!("bytes:{} hex:{} str:{} consensus:{}", rb.is_some(), rh.is_some(), rs.is_some(), rc.is_some()), "all equal".into());
         self.o.stat("all_forms");
@@ -223,9 +227,13 @@ impl<'a> Gen<'a> {
                 let vp = PublicKey::from_private_key(&vsec);
                 self.o.direct(hex(vp.as_bytes()) == *vw, "known answer: bytes 33..65 of the donation address are v·G for the published secret view key", txt.to_string(), hex(vp.as_bytes()), vw.to_string());
             }
-            // and through the model / spec pipeline: Lean's reference base58 + Keccak + tag table must reproduce the published string
+            // the same vector as operation lines: the differential comparison makes Lean's model (crate base58 model + Keccak + generated
+            // tag table) and spec (reference base58 + hand tag table) columns reproduce what the library printed. `r` below is the
+            // LIBRARY's answer through the executor (the check repeats the one above on the executor path); Lean is tied to the published
+            // string only through "Lean == library" (comparison of this line) and "library == published" (here). The kernel-level
+            // tie is `C12_known_answer_integrated` / `_subaddress` / `_donation` (vectors 2, 3 and 5).
             let r = self.o.op(id.clone(), true);
-            self.o.direct(r.split(' ').nth(1) == Some(&hex(txt.as_bytes())), "known answer: c12_fmt text", id.clone(), r.clone(), hex(txt.as_bytes()));
+            self.o.direct(r.split(' ').nth(1) == Some(&hex(txt.as_bytes())), "known answer: c12_fmt text (library answer through the executor)", id.clone(), r.clone(), hex(txt.as_bytes()));
             self.o.op(format!("c12_forms Mainnet {} {} {} {}", k, sp, vw, pid), true);
             self.text("known_answer", txt, true);
             self.blob("known_answer", &want);
@@ -284,12 +292,24 @@ impl<'a> Gen<'a> {
         }
         // --- keys the constructors accept although they are not prime-order points: the identity, (0,-1), both points of order 4,
         // the four points of order 8 — on the FORMAT side (so far they were only ever parsed)
+        // — every one of the 8 points under every address TYPE (the network rotates; thorough: all 9 cells), as spend key, as view key
+        // and as both; each address must format to the book's layout AND parse back to itself from the blob, the text, the hex
+        // and the consensus form (`forms`), and the four parsers must agree on its blob (`all_forms`)
         let torsion: Vec<PublicKey> = curve25519_dalek::constants::EIGHT_TORSION.iter().map(|p| PublicKey::from_slice(p.compress().as_bytes()).unwrap()).collect();
         for (i, t) in torsion.iter().enumerate() {
-            let (n, k) = (NETS[i % 3], KINDS[(i / 3 + i) % 3]);
-            let pid = if k == "Integrated" { self.rng.bytes(8) } else { vec![] };
-            for (x, y) in [(*t, v), (s, *t), (*t, *t)] { let a = mk_addr(n, k, x, y, &pid); self.forms(&a, n, k, &pid); self.o.stat("shared.torsion_key");
-                lines.push([net_name(n).into(), k.into(), hex(x.as_bytes()), hex(y.as_bytes()), hex(&pid)]); }
+            let cells: Vec<(Network, &str)> = if thorough { NETS.iter().flat_map(|n| KINDS.iter().map(move |k| (*n, *k))).collect() } else { KINDS.iter().enumerate().map(|(ki, k)| (NETS[(i + ki) % 3], *k)).collect() };
+            for (n, k) in cells {
+                let pid = if k == "Integrated" { self.rng.bytes(8) } else { vec![] };
+                for (place, x, y) in [("spend", *t, v), ("view", s, *t), ("both", *t, *t)] {
+                    let a = mk_addr(n, k, x, y, &pid); self.forms(&a, n, k, &pid); self.o.stat(&format!("shared.small_order_key.{}", place));
+                    let id = format!("c12_fmt {} {} {} {} {}", net_name(n), k, hex(x.as_bytes()), hex(y.as_bytes()), hex(&pid));
+                    let (b, txt) = (a.as_bytes(), a.to_string());
+                    let back = (Address::from_bytes(&b).ok(), Address::from_str(&txt).ok(), Address::from_hex(a.as_hex()).ok(), monero::consensus::encode::deserialize::<Address>(&serialize(&a)).ok());
+                    self.o.direct(back == (Some(a), Some(a), Some(a), Some(a)), "an address whose spend / view key is one of the 8 small-order points (identity included) parses back from its blob, text, hex and consensus form",
+                        id, format!("bytes:{} str:{} hex:{} consensus:{}", back.0.is_some(), back.1.is_some(), back.2.is_some(), back.3.is_some()), "the address, four times".into());
+                    if place != "both" || thorough { self.all_forms("small_order_key", &b, false); }
+                    lines.push([net_name(n).into(), k.into(), hex(x.as_bytes()), hex(y.as_bytes()), hex(&pid)]); }
+            }
         }
         // --- recombination inside the property: a formatting line that takes ONE argument from another recorded line, executed
         // between its two parents (network or type from elsewhere: a payment id that no longer fits the type gives `err` on all sides)
@@ -338,6 +358,86 @@ impl<'a> Gen<'a> {
             let mut t = ser.clone(); t.push(0);
             let d = monero::consensus::encode::deserialize::<Address>(&t);
             self.o.direct(d.is_err(), "consensus deserialize rejects a trailing byte (whole buffer)", hex(&t), format!("{:?}", d), "Err".into());
+        }
+    }
+
+    /// Families added after the second batch of seeded changes.
+    /// * NON-CANONICAL base58 spellings, block by block: for every block of a valid address text — the full 11-character blocks
+    ///   (8 bytes) and the 7-character tail (5 bytes) — (a) the spelling of value + m·2^(8·bytes), m = 1, 2, 3, whenever it still
+    ///   fits the block's character count (same low bytes, so a decoder that forgets the `< 2^(8·bytes)` test on that block maps it
+    ///   to the SAME address), (b) the all-'z' block, (c) the block with one character outside the alphabet. All must be rejected,
+    ///   by `from_str` and by the crate's `decode`.
+    /// * checksum corruptions whose byte differences XOR to zero: the same bit flipped in two checksum bytes, every pair of
+    ///   positions; three bytes with masks d, e, d^e.
+    fn seeded_families(&mut self, addrs: &[Address]) {
+        let thorough = self.thorough;
+        let sizes = [0usize, 2, 3, 5, 6, 7, 9, 10, 11];
+        let val58 = |blk: &[u8]| blk.iter().fold(0u128, |a, c| a * 58 + ALPHA.iter().position(|x| x == c).unwrap() as u128);
+        for a in addrs.iter().step_by((addrs.len() / (if thorough { 45 } else { 9 })).max(1)) {
+            let c = a.to_string().into_bytes();
+            let nfull = c.len() / 11;
+            let mut blocks: Vec<(usize, usize, usize)> = (0..nfull).map(|i| (i * 11, 11, 8)).collect();   // (start, characters, bytes)
+            let tail = c.len() % 11;
+            if tail > 0 { blocks.push((nfull * 11, tail, sizes.iter().position(|x| *x == tail).unwrap())); }
+            self.o.direct(tail == 7 && (nfull == 8 || nfull == 9), "address text = 8 or 9 full blocks and a tail of 7 characters", a.to_string(), format!("{} full, tail {}", nfull, tail), "8|9 full, tail 7".into());
+            for (bi, (st, n, bytes)) in blocks.iter().copied().enumerate() {
+                let which = if n == 11 { "full" } else { "tail" };
+                let v = val58(&c[st..st + n]);
+                let mut variants: Vec<(String, Vec<u8>)> = vec![];
+                for m in 1..=3u128 {
+                    let w = v + (m << (8 * bytes));
+                    if w < 58u128.pow(n as u32) { let mut x = c.clone(); x[st..st + n].copy_from_slice(&digits58(w, n)); variants.push((format!("noncanonical_{}_block_value_plus_{}x2pow{}", which, m, 8 * bytes), x)); }
+                }
+                { let mut x = c.clone(); for p in st..st + n { x[p] = b'z'; } variants.push((format!("noncanonical_{}_block_all_z", which), x)); }
+                { let mut x = c.clone(); let p = st + self.rng.below(n as u64) as usize; x[p] = *self.rng.pick(b"0OIl+/=_ -.~{"); variants.push((format!("{}_block_foreign_char", which), x)); }
+                { let mut x = c.clone(); x[st] = *self.rng.pick(b"0OIl"); variants.push((format!("{}_block_foreign_first_char", which), x)); }
+                { let mut x = c.clone(); x[st + n - 1] = *self.rng.pick(b"0OIl"); variants.push((format!("{}_block_foreign_last_char", which), x)); }
+                for (cat, x) in variants {
+                    let t = std::str::from_utf8(&x).unwrap();
+                    self.text(&cat, t, true);
+                    self.b58dec(&cat, &x, true);
+                    let (r, d) = (Address::from_str(t), base58_monero::decode(t));
+                    self.o.direct(r.is_err() && d.is_err(), "a valid address text with ONE block respelled (value + m·2^(8·bytes) / all 'z' / a character outside the alphabet) is rejected by from_str and by base58 decode",
+                        format!("{} (block {} at character {}, {} characters)", t, bi, st, n), format!("from_str:{} decode:{}", if r.is_ok() { "Ok" } else { "Err" }, if d.is_ok() { "Ok" } else { "Err" }), "Err Err".into());
+                }
+            }
+        }
+        // the same on the crate alone: every legal block length, as the LAST block behind 0, 1, 2 full blocks: value + 2^(8k) where it fits
+        for k in 1..=8usize { for prefix in ["", "11111111111", "jpXCZedGfVQ11111111111"] { for _ in 0..(if thorough { 6 } else { 2 }) {
+            let v: u128 = if k == 8 { self.rng.next() as u128 } else { (self.rng.next() as u128) & ((1u128 << (8 * k)) - 1) };
+            let n = sizes[k];
+            let mut s = prefix.as_bytes().to_vec(); s.extend(digits58(v, n)); self.b58dec("block_value", &s, true);
+            let w = v + (1u128 << (8 * k));
+            if w < 58u128.pow(n as u32) {
+                let mut s = prefix.as_bytes().to_vec(); s.extend(digits58(w, n)); self.b58dec("block_value_plus_2pow", &s, true);
+                let d = base58_monero::decode(std::str::from_utf8(&s).unwrap());
+                self.o.direct(d.is_err(), "base58 decode rejects a last block that spells value + 2^(8·bytes)", String::from_utf8_lossy(&s).into_owned(), format!("{:?}", d.map(|x| hex(&x))), "Err".into());
+            }
+        } } }
+        // checksum: differences that cancel under xor
+        for a in addrs.iter().step_by((addrs.len() / (if thorough { 27 } else { 9 })).max(1)) {
+            let b = a.as_bytes(); let body = b.len() - 4;
+            for i in 0..4usize { for j in i + 1..4 {
+                let rb = self.rng.below(8) as u8;
+                let bits: Vec<u8> = if thorough { (0..8).collect() } else { let mut v = vec![0u8, 7]; if !v.contains(&rb) { v.push(rb); } v };
+                for bit in bits {
+                    let mut x = b.clone(); x[body + i] ^= 1 << bit; x[body + j] ^= 1 << bit;
+                    self.blob("checksum_same_bit_in_two_bytes", &x);
+                    let r = Address::from_bytes(&x);
+                    self.o.direct(r.is_err(), "a blob with the same bit flipped in two checksum bytes is rejected", format!("{} (checksum bytes {} and {}, bit {})", hex(&x), i, j, bit), format!("{:?}", r.map(|a| a.to_string())), "Err".into());
+                    if bit == rb || (thorough && bit == 0) { self.all_forms("checksum_same_bit_in_two_bytes", &x, true); }
+                }
+            } }
+            for skip in 0..4usize { for _ in 0..(if thorough { 3 } else { 1 }) {
+                let (d, e) = (1 + self.rng.below(255) as u8, 1 + self.rng.below(255) as u8); if d == e { continue; }
+                let idx: Vec<usize> = (0..4).filter(|k| *k != skip).collect();
+                let mut x = b.clone(); x[body + idx[0]] ^= d; x[body + idx[1]] ^= e; x[body + idx[2]] ^= d ^ e;
+                self.blob("checksum_three_bytes_xor_zero", &x);
+                let r = Address::from_bytes(&x);
+                self.o.direct(r.is_err(), "a blob with three checksum bytes changed by masks that xor to zero is rejected", hex(&x), format!("{:?}", r.map(|a| a.to_string())), "Err".into());
+            } }
+            // the checksum bytes permuted (same multiset, same xor)
+            for (i, j) in [(0usize, 2usize), (1, 3), (0, 1)] { let mut x = b.clone(); x.swap(body + i, body + j); if x != b { self.blob("checksum_two_bytes_swapped", &x); } }
         }
     }
 
@@ -568,6 +668,8 @@ pub fn run(o: &mut Out, tier: &str, seed: u64) {
         let s: Vec<u8> = (0..len).map(|_| *g.rng.pick(ALPHA)).collect(); g.b58dec("random_alphabet", &s, false);
     }
     g.audit_families(&addrs);
+    g.seeded_families(&addrs);
+    g.o.notes.push("added families (2): every block of a valid address text respelled (value + m·2^(8·bytes) where it fits, all 'z', foreign character first / last / anywhere) incl. the 7-character tail, through from_str and base58 decode; the same bit flipped in two checksum bytes for all 6 pairs of positions, three-byte masks that xor to zero, swapped checksum bytes; the 8 small-order points as spend / view / both keys under every address type, each parsed back from blob, text, hex and consensus form".into());
     g.o.notes.push("added families: corrupted blobs (bad tag / retagged / invalid, non-canonical, small-order keys / payment id / checksum / truncated / extended, all with recomputed checksum) through hex, consensus and base58 forms with a four-parsers-agree oracle; 5 known-answer addresses; one key pair in all 9 cells and 3 payment ids, pairs (S,V') (V,S) (S,S), the 8 torsion points as spend / view key on the format side; recombined formatting lines; URI / quote / CR LF / NUL / tab / BOM wrappers; blobs of 120..1077 bytes through text and hex".into());
     g.o.notes.push("non-trivial rule: every derived case (valid forms, single-field corruptions, boundary blocks) counts; purely random alphabet strings do not".into());
     g.o.notes.push("direct checks: layout recomputed with tiny-keccak and a hand tag table; parse(format a)==a in 4 forms; accepted blob/text => canonical; base58 crate round-trips".into());
